@@ -743,6 +743,7 @@ vbi3_raw_decoder_remove_services
 			CLEAR (rd->jobs[rd->n_jobs]);
 		} else {
 			++job_num;
+			++job;
 		}
 	}
 
